@@ -21,17 +21,22 @@ fn is_request(line: &str) -> bool {
 
 /// traffic oracle, evaluated in every state (counts only grow) and at quiescence
 fn judge(w: &NetWorld, at_quiescence: bool) -> Vec<(String, String)> {
-    let mut out = vec![];
     let n = w.nodes.len();
     let prim = (0..n).find(|i| w.role(*i) == nundb::bo::ClusterRole::Primary);
     let p = match prim {
         Some(p) => p,
         None => return vec![("no-primary".into(), "no primary".into())],
     };
+    judge_lines(&w.traffic, n, p, at_quiescence)
+}
+
+/// the same oracle on any per-link message log (the model's, or the real cluster's seen by the proxies)
+pub fn judge_lines(traffic: &[(usize, usize, String)], n: usize, p: usize, at_quiescence: bool) -> Vec<(String, String)> {
+    let mut out = vec![];
     let mut forwards = 0;
     let mut copies = 0;
     let mut acks = 0;
-    for (from, to, line) in w.traffic.iter() {
+    for (from, to, line) in traffic.iter() {
         let reply = line.starts_with(REPLY_MARK);
         let l = line.trim_start_matches(REPLY_MARK).trim();
         if l.starts_with("ack ") {
@@ -138,6 +143,7 @@ pub fn run(run: &mut Run) {
             }
         }
     }
+    real_transport_stage(run, if quick { vec![2] } else { vec![2, 3] });
     run.cov("scripts", json!(plan.len()));
     run.cov("commands", json!(commands()));
     run.cov_add("states", total.states);
@@ -151,4 +157,64 @@ pub fn run(run: &mut Run) {
     run.sample(json!({"script": plan[2].2.name(), "step_budget": 120}));
     run.assume("ok / error lines that answer every command on a connection are transport replies, not counted as messages");
     run.assume("cluster-internal commands (join, leave, election, set-primary, replicate*, ack, rp) and debug force-election are not client operations here (elections: C07)");
+}
+
+/// The link model against the real transport (wire.rs), and the property's own oracle on the
+/// real cluster's traffic: per operation at most one forward, one copy per secondary, one
+/// acknowledgement per copy, then silence.
+fn real_transport_stage(run: &mut Run, sizes: Vec<usize>) {
+    let mut ev = vec![];
+    for nodes in sizes {
+        let out = match crate::wire::stage(nodes, "none") {
+            Ok(o) => o,
+            Err(e) => {
+                eprintln!("machinery: real-transport stage: {}", e);
+                std::process::exit(2);
+            }
+        };
+        let sc = &out.scenario;
+        let shape = |oi: usize, what: &str| {
+            let op = &sc.ops[oi];
+            format!("{} on the {} (none db): {}", op.cmd.split(' ').next().unwrap_or(""), if op.node == 0 { "primary" } else { "secondary" }, what)
+        };
+        for (oi, lines) in out.real.per_op.iter().enumerate() {
+            let traffic: Vec<(usize, usize, String)> = lines.iter().map(|(f, t, reply, l)| (*f, *t, if *reply { format!("{}{}", REPLY_MARK, l) } else { l.clone() })).collect();
+            let settled = !(out.real.unsettled.is_some() && oi + 1 == out.real.per_op.len());
+            for (clause, detail) in judge_lines(&traffic, nodes, 0, settled) {
+                run.violate(crate::report::Violation {
+                    clause,
+                    shape: shape(oi, detail.split(';').next().unwrap_or("")),
+                    detail: format!("real cluster ({} node processes over TCP): n{} `{}` ; {} ; lines on the links {:?}", nodes, sc.ops[oi].node + 1, sc.ops[oi].cmd, detail, traffic),
+                    replay: json!({"engine":"wire","nodes":nodes,"op_index":oi}),
+                });
+            }
+        }
+        if let Some(u) = &out.real.unsettled {
+            let oi = out.real.per_op.len().saturating_sub(1);
+            run.violate(crate::report::Violation {
+                clause: "no-silence".into(),
+                shape: shape(oi, "the real cluster does not settle"),
+                detail: format!("real cluster ({} node processes over TCP): {}", nodes, u),
+                replay: json!({"engine":"wire","nodes":nodes,"op_index":oi}),
+            });
+        } else if !out.real.after_silence.is_empty() {
+            run.violate(crate::report::Violation {
+                clause: "no-silence".into(),
+                shape: "messages without a client operation".into(),
+                detail: format!("real cluster ({} node processes over TCP): after the last operation had settled the links carried {:?}", nodes, out.real.after_silence),
+                replay: json!({"engine":"wire","nodes":nodes}),
+            });
+        } else if !out.conf.differences.is_empty() {
+            // the model of the connection is not what the code does: nothing the NET stages say can be trusted
+            eprintln!("machinery: the link model of the NET engine does not conform to the real transport ({} nodes, {} real runs):", nodes, out.real_runs);
+            for d in out.conf.differences.iter() {
+                eprintln!("  {}", d);
+            }
+            std::process::exit(2);
+        }
+        run.cov_add("traces_validated_against_impl", out.conf.links_compared as u64);
+        ev.push(crate::wire::evidence(&out));
+    }
+    run.cov("link_model_conformance", json!(ev));
+    run.assume("real-transport stage: one schedule of the real system (the operating system's); operations are issued one at a time, each after every copy has been acknowledged and the links have been silent for 250 ms");
 }
